@@ -319,24 +319,26 @@ func (d *dec) denseLinks(o *Object, fheapAddr, nameBT, corderBT uint64) {
 	var prevHash uint32
 	var prevName string
 	seen := map[string]bool{}
-	for i, r := range bt.records {
-		hash := le32(r[:4])
-		id := r[4:11]
-		body, at := fh.object(d, id, fmt.Sprintf("link name index record #%d of %s", i, o.Path))
-		l := d.decodeLink(body, at, true)
-		if got := checksum([]byte(l.Name)); got != hash {
-			d.fail("B-tree v2 at 0x%x (link name index of %s): record #%d stores hash 0x%08x, lookup3 of the link name %q is 0x%08x", d.abs(nameBT), o.Path, i, hash, l.Name, got)
+	d.withHeapOffsetFallback(fh, func() { prevHash, prevName, seen, o.Links = 0, "", map[string]bool{}, nil }, func() {
+		for i, r := range bt.records {
+			hash := le32(r[:4])
+			id := r[4:11]
+			body, at := fh.object(d, id, fmt.Sprintf("link name index record #%d of %s", i, o.Path))
+			l := d.decodeLink(body, at, true, func(name string) bool { return checksum([]byte(name)) == hash })
+			if got := checksum([]byte(l.Name)); got != hash {
+				d.fail("B-tree v2 at 0x%x (link name index of %s): record #%d stores hash 0x%08x, lookup3 of the link name %q is 0x%08x", d.abs(nameBT), o.Path, i, hash, l.Name, got)
+			}
+			if i > 0 && (hash < prevHash || (hash == prevHash && !(prevName < l.Name))) {
+				d.fail("B-tree v2 at 0x%x (link name index of %s): record #%d (hash 0x%08x, %q) does not sort after record #%d (hash 0x%08x, %q)", d.abs(nameBT), o.Path, i, hash, l.Name, i-1, prevHash, prevName)
+			}
+			if seen[l.Name] {
+				d.fail("B-tree v2 at 0x%x (link name index of %s): link name %q occurs twice", d.abs(nameBT), o.Path, l.Name)
+			}
+			seen[l.Name] = true
+			prevHash, prevName = hash, l.Name
+			o.Links = append(o.Links, l)
 		}
-		if i > 0 && (hash < prevHash || (hash == prevHash && !(prevName < l.Name))) {
-			d.fail("B-tree v2 at 0x%x (link name index of %s): record #%d (hash 0x%08x, %q) does not sort after record #%d (hash 0x%08x, %q)", d.abs(nameBT), o.Path, i, hash, l.Name, i-1, prevHash, prevName)
-		}
-		if seen[l.Name] {
-			d.fail("B-tree v2 at 0x%x (link name index of %s): link name %q occurs twice", d.abs(nameBT), o.Path, l.Name)
-		}
-		seen[l.Name] = true
-		prevHash, prevName = hash, l.Name
-		o.Links = append(o.Links, l)
-	}
+	})
 	if uint64(len(bt.records)) != fh.nManaged+fh.nHuge+fh.nTiny {
 		d.fail("fractal heap at 0x%x (links of %s): header counts %d objects but the name index holds %d records", d.abs(fheapAddr), o.Path, fh.nManaged+fh.nHuge+fh.nTiny, len(bt.records))
 	}
